@@ -23,9 +23,17 @@ i.e. exactly the API-announced routes whose prefix is not a configured one.  (`c
 Adj-RIB-Out before the reload, which by C04 is what the peer holds once drained.)
 
 How the delta is achieved (finding F3, kept visible by the proofs): the announcements come from
-the PARSE-TIME insertion of the new section's routes into the live RIB (`parsed_cache`);
-`replace_reload` only contributes the withdrawals (`replaceReload_cache` needs, as its
-hypothesis, that the cache already holds the new configuration).
+the insertion of the new section's routes into the live RIB by `attach_ribs()` — at the COMMIT
+of the reload since /repo 1a8ae65, at parse time before — (`parsed_cache`); `replace_reload` only
+contributes the withdrawals (`replaceReload_cache` needs, as its hypothesis, that the cache
+already holds the new configuration).
+
+History: on the tree as first checked the second half of the property was false (F17: no
+rollback on the missing-file and parser-exception paths, parser left dirty; F28: parse-time
+insertion leaked the routes of a file that then failed).  Both were repaired in /repo (f9a9367,
+1a8ae65); the model follows the repaired code and `reload_fail_atomic` is now a theorem for
+every fault kind.  The inputs of the former negation witnesses are kept below as `example`s of
+the repaired behaviour, and in corpus/C17 as regression cases.
 
 Premises kept in the statements (`RoutesOK`): adj-rib-out is kept, no configured route is parked by
 a `withdraw` watchdog, every configured route belongs to a family of its neighbor; and `FamOK`:
@@ -34,10 +42,9 @@ every route in the Adj-RIB-Out belongs to a family the RIB serves (as in C11).
 namespace Exa.Props.C17
 open Exa Exa.Rib Exa.Reload
 
-/-- The starting point for peer `a`: the world is clean (no failed reload before), the peer runs
-    the configured section `old`, no neighbor definition or teardown is pending. -/
+/-- The starting point for peer `a`: the peer runs the configured section `old`, no neighbor
+    definition or teardown is pending. -/
 structure Live (w : World) (a : Nat) (old : Nbr) (p : PeerSt) (s : Sess) : Prop where
-  clean : w.dirty = false
   nbr : AList.lookup a w.nbrs = some old
   peer : AList.lookup a w.peers = some p
   cur : p.cur.nbr = old
@@ -62,7 +69,7 @@ theorem reload_delta_up (w : World) (c : Config) (a : Nat) (old n : Nbr) (p : Pe
       ∀ m, AList.lookup m (applyEvs t (w1.drain a).2) = deltaView s.rib.cacheView old.plain n.plain m := by
   subst hname
   intro w1
-  obtain ⟨hok1, hpair, _, _⟩ := reactorReload_ok w c hl.clean hnodup n hn
+  obtain ⟨hok1, hpair, _⟩ := reactorReload_ok w c hnodup n hn
   have hsame' : p.cur.nbr.sameSession n = true := by rw [hl.cur]; exact hsame
   rw [hl.peer, hl.rib] at hpair
   simp only [decided, decidePeer, hl.nbr, hsame', Bool.not_true, Bool.false_eq_true, if_false, hup, if_true,
@@ -95,7 +102,7 @@ theorem reload_delta_up_midloop (w : World) (c : Config) (a : Nat) (old n : Nbr)
     ∀ m, AList.lookup m (applyEvs t (wx.2 ++ (w1.drain a).2)) = deltaView s.rib.cacheView old.plain n.plain m := by
   subst hname
   intro wx w1
-  obtain ⟨_, hpair, _, _⟩ := reactorReload_ok w c hl.clean hnodup n hn
+  obtain ⟨_, hpair, _⟩ := reactorReload_ok w c hnodup n hn
   have hsame' : p.cur.nbr.sameSession n = true := by rw [hl.cur]; exact hsame
   rw [hl.peer, hl.rib] at hpair
   simp only [decided, decidePeer, hl.nbr, hsame', Bool.not_true, Bool.false_eq_true, if_false, hup, if_true,
@@ -123,7 +130,7 @@ theorem reload_delta_down (w : World) (c : Config) (a : Nat) (old n : Nbr) (p : 
       ∀ m, AList.lookup m (applyEvs [] (w1.drain a).2) = deltaView s.rib.cacheView old.plain n.plain m := by
   subst hname
   intro w1
-  obtain ⟨hok1, hpair, _, _⟩ := reactorReload_ok w c hl.clean hnodup n hn
+  obtain ⟨hok1, hpair, _⟩ := reactorReload_ok w c hnodup n hn
   have hsame' : p.cur.nbr.sameSession n = true := by rw [hl.cur]; exact hsame
   rw [hl.peer, hl.rib] at hpair
   simp only [decided, decidePeer, hl.nbr, hsame', Bool.not_true, Bool.false_eq_true, if_false, hup,
@@ -155,7 +162,7 @@ theorem reload_delta_restart (w : World) (c : Config) (a : Nat) (old n : Nbr) (p
       ∀ m, AList.lookup m (applyEvs [] (w1.drain a).2) = deltaView (famView n.fams s.rib) old.plain n.plain m := by
   subst hname
   intro w1
-  obtain ⟨hok1, hpair, _, _⟩ := reactorReload_ok w c hl.clean hnodup n hn
+  obtain ⟨hok1, hpair, _⟩ := reactorReload_ok w c hnodup n hn
   have hsame' : p.cur.nbr.sameSession n = false := by rw [hl.cur]; exact hsame
   rw [hl.peer, hl.rib] at hpair
   simp only [decided, decidePeer, hl.nbr, hsame', Bool.not_false, if_true, Option.map_some] at hpair
@@ -178,7 +185,7 @@ theorem reload_delta_restart (w : World) (c : Config) (a : Nat) (old n : Nbr) (p
 
 /-- **reload_delta, new neighbor**: a section whose name had neither peer nor RIB nor previous
     definition gets a peer; its first session, drained, carries exactly the configured routes. -/
-theorem reload_delta_new (w : World) (c : Config) (a : Nat) (n : Nbr) (hclean : w.dirty = false)
+theorem reload_delta_new (w : World) (c : Config) (a : Nat) (n : Nbr)
     (h1 : AList.lookup a w.nbrs = none) (h2 : AList.lookup a w.peers = none) (h3 : AList.lookup a w.ribs = none)
     (hnodup : (c.nbrs.map Nbr.name).Nodup) (hn : n ∈ c.nbrs) (hname : n.name = a) (hr : RoutesOK n) :
     let w1 := (reactorReload w c none).1.establish a
@@ -187,7 +194,7 @@ theorem reload_delta_new (w : World) (c : Config) (a : Nat) (n : Nbr) (hclean : 
       ∀ m, AList.lookup m (applyEvs [] (w1.drain a).2) = deltaView (fun _ => none) [] n.plain m := by
   subst hname
   intro w1
-  obtain ⟨hok1, hpair, _, _⟩ := reactorReload_ok w c hclean hnodup n hn
+  obtain ⟨hok1, hpair, _⟩ := reactorReload_ok w c hnodup n hn
   rw [h2, h3] at hpair
   simp only [decided, decidePeer, h1, Option.map_none] at hpair
   obtain ⟨hp', hs'⟩ := Prod.mk.inj hpair
@@ -215,66 +222,47 @@ theorem deltaView_spec (cv : Nat → Option (Nat × Nat)) (prev new : List Route
   · simp [deltaView, (lastOf_none_iff new m).2 h1, h2]
   · simp [deltaView, (lastOf_none_iff new m).2 h1, h2]
 
-/-! ## A reload that fails
+/-! ## A reload that fails -/
 
-Full statement (NOT a theorem of the unchanged code):
+/-- **reload_fail_atomic (full statement).**  Whatever the fault — the first statement refused, a
+    syntax error after any number `k` of completed neighbor sections, a parser raising anything
+    after any `k`, the file missing or empty — `Reactor.reload()` reports failure and
+    `configuration.neighbors`, `configuration.processes`, every RIB (cache, queues, watchdog books,
+    transmission state) and every peer are exactly as they were: the world is unchanged.
+    No hypothesis on the world or on the file. -/
+theorem reload_fail_atomic (w : World) (c : Config) (f : Fault) :
+    (reactorReload w c (some f)).2 = false ∧
+    (reactorReload w c (some f)).1.nbrs = w.nbrs ∧
+    (reactorReload w c (some f)).1.procs = w.procs ∧
+    (reactorReload w c (some f)).1.ribs = w.ribs ∧
+    (reactorReload w c (some f)).1.peers = w.peers ∧
+    (reactorReload w c (some f)).1 = w := by
+  cases f <;> simp [reactorReload, cfgReload, clearStage, parseStage, abortStage]
 
-    reload_fail_atomic : ∀ w c f, w.dirty = false →
-        let r := reactorReload w c (some f)
-        r.2 = false ∧ r.1.nbrs = w.nbrs ∧ r.1.ribs = w.ribs ∧ r.1.peers = w.peers ∧ r.1.procs = w.procs
-                    ∧ r.1.dirty = false
+/-- **Nothing is sent because of a failed reload**: what any established peer transmits
+    afterwards (`xmit`: any transmission steps; `drain`) is what it would have transmitted. -/
+theorem reload_fail_sends_nothing (w : World) (c : Config) (f : Fault) (a : Nat) (ops : List Op) :
+    ((reactorReload w c (some f)).1.xmit a ops).2 = (w.xmit a ops).2 ∧
+    (((reactorReload w c (some f)).1.loopTop a).drain a).2 = ((w.loopTop a).drain a).2 ∧
+    (((reactorReload w c (some f)).1.establish a).drain a).2 = ((w.establish a).drain a).2 := by
+  rw [(reload_fail_atomic w c f).2.2.2.2.2]
+  exact ⟨rfl, rfl, rfl⟩
 
-It is false in four ways, each witnessed below on a concrete world by `decide` and replayed on
-the real code by the harness: routes of the sections parsed before the fault are already in the
-live RIB and are sent (F28); a missing file or a parser exception leaves `configuration.neighbors`
-(and `configuration.processes`) empty (F17); the rollback of a syntax error installs the process
-list of the file that failed; the parser is left dirty, so every later reload is refused.
-(A `validate()` error after the commit is not a failure path at all in the unchanged code:
-`_reload` returns True either way, so it is modelled as a successful reload.)
-What does hold is `reload_fail_atomic_partial`. -/
+/-- **The API keeps working**: an API command after the failed reload does what it would have
+    done. -/
+theorem reload_fail_api_works (w : World) (c : Config) (f : Fault) (a : Nat) (op : Op) :
+    (reactorReload w c (some f)).1.api a op = w.api a op := by
+  rw [(reload_fail_atomic w c f).2.2.2.2.2]
 
-def ReloadFailAtomic : Prop :=
-  ∀ (w : World) (c : Config) (f : Fault), w.dirty = false →
-    (reactorReload w c (some f)).2 = false ∧ (reactorReload w c (some f)).1.nbrs = w.nbrs ∧
-    (reactorReload w c (some f)).1.ribs = w.ribs ∧ (reactorReload w c (some f)).1.peers = w.peers ∧
-    (reactorReload w c (some f)).1.procs = w.procs ∧ (reactorReload w c (some f)).1.dirty = false
-
-/-- **reload_fail_atomic_partial**: a syntax error (the one failure path that rolls back) leaves
-    neighbors, every RIB (cache, queues, transmission state) and every peer exactly as they were,
-    PROVIDED every neighbor section completed before the fault is already live with exactly its
-    routes in the Adj-RIB-Out (`Settled`: same families, adj-rib-out kept, every route `in_cache`) —
-    in particular when the fault precedes the first section (`k = 0`).  This is the hypothesis
-    the proof forces: a parsed section is attached to the live RIB and its routes are inserted
-    before anything is known about the rest of the file. -/
-theorem reload_fail_atomic_partial (w : World) (c : Config) (k : Nat) (hclean : w.dirty = false)
-    (hs : ∀ n ∈ c.nbrs.take k, Settled w n) :
-    (reactorReload w c (some (.syntax k))).2 = false ∧
-    (reactorReload w c (some (.syntax k))).1.nbrs = w.nbrs ∧
-    (reactorReload w c (some (.syntax k))).1.ribs = w.ribs ∧
-    (reactorReload w c (some (.syntax k))).1.peers = w.peers := by
-  simp only [reactorReload, cfgReload, hclean, Bool.false_eq_true, if_false, parseAll_settled w _ hs]
-  exact ⟨trivial, trivial, trivial, trivial⟩
-
-/-- A fault in the very first statement of the file: nothing was parsed, so neighbors, RIBs and peers
-    are untouched and the parser stays usable — but `configuration.processes` is emptied (the
-    rollback installs the process list parsed so far). -/
-theorem reload_fail_first_line (w : World) (c : Config) (hclean : w.dirty = false) :
-    (reactorReload w c (some .firstLine)).2 = false ∧
-    (reactorReload w c (some .firstLine)).1.nbrs = w.nbrs ∧
-    (reactorReload w c (some .firstLine)).1.ribs = w.ribs ∧
-    (reactorReload w c (some .firstLine)).1.peers = w.peers ∧
-    (reactorReload w c (some .firstLine)).1.dirty = false ∧
-    (reactorReload w c (some .firstLine)).1.procs = [] := by
-  simp [reactorReload, cfgReload, hclean]
-
-/-- A failed reload never tells the peers anything: whatever the fault, `Reactor.reload()` leaves
-    `reactor._peers` alone (sessions are not torn down by a failed reload). -/
-theorem reload_fail_keeps_peers (w : World) (c : Config) (f : Fault) :
-    (reactorReload w c (some f)).2 = false ∧ (reactorReload w c (some f)).1.peers = w.peers := by
-  by_cases hd : w.dirty = true
-  · simp [reactorReload, cfgReload, hd]
-  · have hd' : w.dirty = false := by simpa using hd
-    cases f <;> simp [reactorReload, cfgReload, hd', (parseAll_fields _ w).2.1]
+/-- **The next reload is not affected**: after a failed reload, reloading any file (in particular
+    the corrected one) gives exactly what it would have given — so every `reload_delta_*`
+    theorem applies to it — and a valid file is accepted. -/
+theorem reload_after_failure_ok (w : World) (c c' : Config) (f : Fault) :
+    reactorReload (reactorReload w c (some f)).1 c' none = reactorReload w c' none ∧
+    (reactorReload (reactorReload w c (some f)).1 c' none).2 = true := by
+  rw [(reload_fail_atomic w c f).2.2.2.2.2]
+  refine ⟨rfl, ?_⟩
+  simp [reactorReload, cfgReload]
 
 /-! ### the witnesses -/
 
@@ -302,52 +290,38 @@ def wDown : World :=
   let w0 := (reactorReload World.init cfgOld none).1
   w0.api 1 (.add (rt 5 1 2 2) false)
 
-/-- **F28 (`reload_fail_leaks_routes`)**: the new file with a syntax error in its SECOND section.
-    The reload fails and `neighbors` is rolled back, but the first section's changed and added
-    routes are already queued in the live RIB — and the established session sends them. -/
-theorem reload_fail_leaks_routes :
+/-- The former F28 witness (new file with a syntax error in its SECOND section, session up): the
+    RIBs are untouched and the established session sends nothing. -/
+example :
     (reactorReload wLive cfgNew (some (.syntax 1))).2 = false ∧
-    (reactorReload wLive cfgNew (some (.syntax 1))).1.nbrs = wLive.nbrs ∧
-    (reactorReload wLive cfgNew (some (.syntax 1))).1.ribs ≠ wLive.ribs ∧
-    (((reactorReload wLive cfgNew (some (.syntax 1))).1.loopTop 1).drain 1).2
-      = [Ev.ann (rt 1 1 3 1), Ev.ann (rt 4 1 1 1)] := by decide
+    (reactorReload wLive cfgNew (some (.syntax 1))).1 = wLive ∧
+    (((reactorReload wLive cfgNew (some (.syntax 1))).1.loopTop 1).drain 1).2 = [] := by decide
 
-/-- …and with the session down the leaked routes are what the next session announces. -/
-theorem reload_fail_leaks_routes_down :
-    (reactorReload wDown cfgNew (some (.syntax 1))).2 = false ∧
-    ((reactorReload wDown cfgNew (some (.syntax 1))).1.ribs ≠ wDown.ribs) ∧
+/-- …session down: the next session announces the OLD configuration (prefix 1 at attributes 1). -/
+example :
+    (reactorReload wDown cfgNew (some (.syntax 1))).1 = wDown ∧
     AList.lookup 1 (applyEvs [] (((reactorReload wDown cfgNew (some (.syntax 1))).1.establish 1).drain 1).2)
-      = some (3, 1) := by decide
+      = some (1, 1) := by decide
 
-/-- **F17 (`reload_missing_file_wipes`)**: the file vanished, or a value parser raised something
-    else than `ValueError`: `reload()` returns False and `configuration.neighbors` is EMPTY (no
-    rollback on those paths); so is `configuration.processes`. -/
-theorem reload_missing_file_wipes :
-    (reactorReload wLive cfgNew (some .missingFile)).2 = false ∧
-    (reactorReload wLive cfgNew (some .missingFile)).1.nbrs = [] ∧
-    (reactorReload wLive cfgNew (some .missingFile)).1.procs = [] ∧
-    (reactorReload wLive cfgNew (some (.exception 1))).1.nbrs = [] ∧
+/-- The former F17 witnesses (file vanished; a parser raising in the second section):
+    `configuration.neighbors` and `configuration.processes` are kept. -/
+example :
+    (reactorReload wLive cfgNew (some .missingFile)).1.nbrs = wLive.nbrs ∧
+    (reactorReload wLive cfgNew (some .missingFile)).1.procs = [1] ∧
+    (reactorReload wLive cfgNew (some (.exception 1))).1.nbrs = wLive.nbrs ∧
     wLive.nbrs ≠ [] := by decide
 
-/-- …after which an API announcement reaches no RIB (`announce_route` iterates
-    `configuration.neighbors`). -/
-theorem reload_missing_file_breaks_api :
-    ((reactorReload wLive cfgNew (some .missingFile)).1.api 1 (.add (rt 6 2 1 1) false)).ribs
-      = (reactorReload wLive cfgNew (some .missingFile)).1.ribs ∧
-    (wLive.api 1 (.add (rt 6 2 1 1) false)).ribs ≠ wLive.ribs := by decide
-
-/-- **A failed reload poisons the parser**: `_cleanup()` only runs on commit, so after a syntax
-    error the very next reload of a VALID file is refused (and so is every later one). -/
-theorem reload_after_failure_refused :
-    (reactorReload (reactorReload wLive cfgNew (some (.syntax 1))).1 cfgOld none).2 = false ∧
-    (reactorReload wLive cfgOld none).2 = true := by decide
-
-/-- The full atomicity statement is false. -/
-theorem reload_fail_atomic_false : ¬ ReloadFailAtomic := by
-  intro h
-  have := (h wLive cfgNew .missingFile (by decide)).2.1
-  revert this
+/-- …and an API announcement after it reaches the RIB. -/
+example :
+    ((reactorReload wLive cfgNew (some .missingFile)).1.api 1 (.add (rt 6 2 1 1) false)).ribs ≠ wLive.ribs := by
   decide
+
+/-- The former "poisoned parser" witness: after the syntax error the corrected file loads, and
+    the peer gets the delta. -/
+example :
+    (reactorReload (reactorReload wLive cfgNew (some (.syntax 1))).1 cfgNew none).2 = true ∧
+    (((reactorReload (reactorReload wLive cfgNew (some (.syntax 1))).1 cfgNew none).1.loopTop 1).drain 1).2
+      = [Ev.wd 2 1, Ev.ann (rt 1 1 3 1), Ev.ann (rt 4 1 1 1)] := by decide
 
 /-! ### non-vacuity: the hypotheses of the theorems are satisfiable on these worlds -/
 
@@ -358,7 +332,7 @@ example : nbNew1 ∈ cfgNew.nbrs ∧ nbOld1.sameSession nbNew1 = true := by deci
 example : (AList.lookup 1 wLive.peers).map (fun p => (p.cur.nbr, p.up, p.next, p.teardown))
       = some (nbOld1, true, none, false) ∧
     (AList.lookup 1 wLive.ribs).map (fun s => (s.rib.families, s.rib.cacheOn, s.inflight)) = some ([1, 2], true, none) ∧
-    AList.lookup 1 wLive.nbrs = some nbOld1 ∧ wLive.dirty = false := by
+    AList.lookup 1 wLive.nbrs = some nbOld1 := by
   decide
 /-- … and the result is the delta: prefix 1 at its new attributes, prefix 2 withdrawn, prefix 4
     announced, the API route 5 kept. -/
@@ -375,8 +349,8 @@ example : AList.lookup 5 (applyEvs [] (((reactorReload wDown cfgNew none).1.esta
     AList.lookup 2 (applyEvs [] (((reactorReload wDown cfgNew none).1.establish 1).drain 1).2) = none ∧
     AList.lookup 1 (applyEvs [] (((reactorReload wDown cfgNew none).1.establish 1).drain 1).2) = some (3, 1) := by
   decide
-/-- `Settled`: reloading the SAME file with a fault after the first section changes nothing … -/
-example : (reactorReload wLive cfgOld (some (.syntax 1))).1.ribs = wLive.ribs := by decide
+/-- reloading the SAME file successfully puts nothing on the wire -/
+example : (((reactorReload wLive cfgOld none).1.loopTop 1).drain 1).2 = [] := by decide
 /-- F3 on its own: `replace_reload([A/x],[A/y])` without the parse-time insertion announces nothing. -/
 example : (((Sess.init true [1]).step (.add (rt 1 1 1 1) false)).1.drain.1.step
     (.reload [rt 1 1 1 1] [rt 1 1 2 1])).1.drain.2 = [] := by decide
